@@ -36,6 +36,8 @@ CONSTANTS RD,        \* reader name -> [temp, kind]
           SRd,       \* stopper -> reader
           MaxTicks,  \* interval ticks per periodic reader
           Variant, Eager,
+          CbErr,     \* TRUE: an observable callback may return an error during a collection (known deviation D1:
+                     \* the periodic reader then drops the collected data instead of exporting it)
           Abort      \* "never" | "may" | "must": a run-loop collection whose ctx was cancelled by Shutdown is
                      \* abandoned before its compute functions (pipeline.produce checks ctx.Err() after the
                      \* observable callbacks; without callbacks it never is)
@@ -213,6 +215,22 @@ RunExport(x) == /\ pc[x] = "export"
                 /\ buf' = [buf EXCEPT ![x] = {}] /\ biv' = [biv EXCEPT ![x] = {}]
                 /\ UNCHANGED <<val, vlock, start, clk, plock, shut, cancelled, ticks, ridx, rp, ck, crd, cs, pend, err>>
 
+(* D1: produce ran the compute functions but returns the callback's error: collectAndExport / Shutdown skip *)
+(* the export (the data is gone); a Collect caller gets the data together with the error                   *)
+DropOnCbErr(x) == /\ CbErr /\ x \in Runs \cup Stoppers /\ pc[x] = "export"
+                  /\ Obs([ev |-> "CbErr", src |-> IF x \in Runs THEN "run" ELSE x])
+                  /\ buf' = [buf EXCEPT ![x] = {}] /\ biv' = [biv EXCEPT ![x] = {}]
+                  /\ IF x \in Stoppers
+                       THEN Go(x, "ret") /\ err' = [err EXCEPT ![x] = "other"] /\ UNCHANGED serving
+                       ELSE LET f == serving[RunRd(x)] IN
+                            IF f = "none" THEN Go(x, "select") /\ UNCHANGED <<serving, err>>
+                            ELSE /\ pc' = [pc EXCEPT ![x] = "select", ![f] = "ret"] /\ err' = [err EXCEPT ![f] = "other"]
+                                 /\ serving' = [serving EXCEPT ![RunRd(x)] = "none"]
+                  /\ UNCHANGED <<val, vlock, start, clk, plock, shut, cancelled, ticks, ridx, rp, ck, crd, cs, pend>>
+PartialOnCbErr(c) == /\ CbErr /\ c \in Cols /\ pc[c] = "ret" /\ err[c] = ""
+                     /\ Obs([ev |-> "CbErr", src |-> c]) /\ err' = [err EXCEPT ![c] = "partial"]
+                     /\ UNCHANGED <<val, vlock, start, clk, plock, shut, cancelled, ticks, serving, ridx, rp, ck, crd, cs, buf, biv, pend, pc>>
+
 (* ------------------------------------------------------------ ForceFlush *)
 FCall(f) == /\ pc[f] = "idle" /\ Go(f, "send")
             /\ Obs([ev |-> "Call", op |-> "FF", proc |-> f, rd |-> FRd[f]]) /\ UNCHANGED proto
@@ -248,7 +266,7 @@ SRet(z) == /\ pc[z] = "ret" /\ Go(z, "done")
            /\ Obs([ev |-> "Ret", op |-> "SD", proc |-> z, rd |-> SRd[z], err |-> err[z]]) /\ UNCHANGED proto
 
 Next == \/ \E g \in Recs : RCall(g) \/ RLock(g) \/ RUnlock(g) \/ RRet(g)
-        \/ \E x \in Collecting : PLock(x) \/ Comp(x) \/ Clear(x)
+        \/ \E x \in Collecting : PLock(x) \/ Comp(x) \/ Clear(x) \/ DropOnCbErr(x) \/ PartialOnCbErr(x)
         \/ \E c \in Cols : CCall(c) \/ CRet(c)
         \/ \E x \in Runs : Tick(x) \/ RunStop(x) \/ RunAbort(x) \/ RunExport(x) \/ \E f \in Flushers : FlushRecv(x, f)
         \/ \E f \in Flushers : FCall(f) \/ FGone(f) \/ FRet(f)
@@ -264,7 +282,8 @@ Fairness == /\ \A g \in Recs : WF_vars(RLock(g) \/ RUnlock(g) \/ RRet(g))
 FairSpec == Spec /\ Fairness
 
 (* ------------------------------------------------------------ properties *)
-Contract == bad = {}
+Contract == bad \subseteq (IF CbErr THEN {"lost-after-callback-error"} ELSE {})
+Strict == bad = {}
 (* mutual exclusion / lock discipline of the mechanism itself *)
 LocksOK == /\ \A r \in Readers : \A s \in 1..NS : vlock[r][s] \in Recs \cup {"none"}
            /\ \A r \in Readers : plock[r] = "none" \/ (pc[plock[r]] = "comp" /\ crd[plock[r]] = r)
